@@ -24,18 +24,23 @@ def build():
              "use crate::hooks::HookType;\nuse crate::storage::FileManager;\nuse crate::acme_common::error::Error;")
     u.take(M, "MainEventLoop", "main_event_loop")
     u.raw("main_event_loop", SPEC)
-    touching = ("T-ITER", r"(?P<x>acc\s*\.get_hooks\(&cnf\)\?|hooks)\s*\.iter\(\)\s*\.filter\(\|h\| !h\.hook_type\.is_disjoint\(&(?P<s>\w+)\)\)\s*\.map\(\|e\| e\.to_owned\(\)\)\s*\.collect\(\)",
-                lambda m: f"crate::shims::hooks_touching(&{' '.join(m.group('x').split())}, &{m.group('s')})", 3)
+    # X.iter().filter(|h| [!]h.hook_type.is_disjoint(&SET)).map(|e| e.to_owned()).collect(): with the `!` the hooks that have a type in SET
+    touching = ("T-ITER", r"(?P<x>acc\s*\.get_hooks\(&cnf\)\?|hooks)\s*\.iter\(\)\s*\.filter\(\|h\| (?P<n>!?)h\.hook_type\.is_disjoint\(&(?P<s>\w+)\)\)\s*\.map\(\|e\| e\.(?:to_owned|clone)\(\)\)\s*\.collect\(\)",
+                lambda m: f"crate::shims::{'hooks_touching' if m.group('n') else 'hooks_not_touching'}(&{' '.join(m.group('x').split())}, &{m.group('s')})", 3)
+
+    def hookset_rw(m):
+        elems = ", ".join(x.strip() for x in m.group("b").split(",") if x.strip())
+        return ("{ let hs__ = crate::shims::hookset(vec![" + m.group("b") + "]); proof { assert(hset(hs__) =~= set![" + elems + "]); } hs__ }")
     u.verify(M, "MainEventLoop::new", "main_event_loop", props=["C10", "C13", "C14", "C18"], fns={"new": FnSpec(ret="r", sig="""
     ensures
         // every configured certificate has its run-time object under its own id: two certificates with the same id are an error,
         // and so is a certificate whose account is not configured
         r matches Ok(l) ==> loaded(config_of(config_file@), root_certs@, l), //@C14.duplicate_id_and_unknown_account_are_errors,C18.every_endpoint_gets_the_command_line_roots
 """, loops={1: """
-    invariant hset(file_hooks) == file_hook_types(), hset(cert_hooks) == cert_hook_types(), cnf == config_of(config_file@),
+    invariant cnf == config_of(config_file@),
         forall|j: int| 0 <= j < it1.index@ ==> accounts@.dom().contains(cnf.account@[j].name@),
 """, 2: """
-    invariant hset(file_hooks) == file_hook_types(), hset(cert_hooks) == cert_hook_types(),
+    invariant
         forall|j: int| 0 <= j < cnf.account@.len() ==> accounts@.dom().contains(cnf.account@[j].name@),
         cnf == config_of(config_file@),
         forall|j: int| 0 <= j < it2.index@ ==> built(cnf, root_certs@, #[trigger] cnf.certificate@[j], certificates@, accounts@.dom(), endpoints@),
@@ -43,19 +48,14 @@ def build():
         forall|k: Seq<char>| certificates@.dom().contains(k) ==> exists|j: int| 0 <= j < it2.index@ && k == cfg_id(#[trigger] cnf.certificate@[j]),
         forall|n: Seq<char>| endpoints@.dom().contains(n) ==> roots_text((#[trigger] endpoints@[n]).cmdline_roots@) == roots_text(root_certs@),
 """},
-        rewrites=[("T-ITER", r"vec!\[(?P<b>[^\]]*)\]\s*\.into_iter\(\)\s*\.collect\(\)", lambda m: f"crate::shims::hookset(vec![{m.group('b')}])", 2),
+        rewrites=[("T-ITER", r"vec!\[(?P<b>[^\]]*)\]\s*\.into_iter\(\)\s*\.collect\(\)", hookset_rw, None),
                   touching,
                   ("T-ITER", r"for acc in &cnf\.account", "for acc in it1: cnf.account.iter()"),
                   ("T-ITER", r"for crt in cnf\.certificate\.iter\(\)", "for crt in it2: cnf.certificate.iter()"),
                   ("T-ITER", r"(?P<m>accounts|endpoints)\s*\.iter\(\)\s*\.map\(\|\(k, v\)\| \(k\.to_owned\(\), Arc::new\(RwLock::new\(v\.to_owned\(\)\)\)\)\)\s*\.collect\(\)",
                    lambda m: f"crate::shims::to_sync_map(&{m.group('m')})", 2),
                   ],
-        at=[("after_stmt", "let cert_hooks = ", 1, """
-        proof {
-            // the eleven hook types are split in two: the four file-* types go with the file manager, the seven others with the certificate
-            assert(hset(file_hooks) =~= file_hook_types() && hset(cert_hooks) =~= cert_hook_types()); //@C10.hook_types_are_split_between_file_manager_and_certificate
-        }
-"""),
+        at=[
             ("after_stmt", "let fm = FileManager {", 1, """
             proof {
                 assert(fm_common_ok(cnf, fm) && fm.account_name@ == acc.name@); //@C13.file_manager_carries_the_configured_modes_and_owners
